@@ -925,10 +925,13 @@ func txcodecDriver(cfg Config, out *Out) error {
 			return nil
 		})
 	}
+	// One draw from r per transaction, as before the lookup cases existed: the orchestrator runs a
+	// tier in batches whose seeds differ by the batch size, and splitmix64 streams of seeds s and
+	// s+k are the same stream k draws apart, so batches continue each other without overlap.
 	r := NewRng(cfg.Seed)
 	// partners and foreign transactions of the by-hash lookups: short wrappable
-	// transactions from the same generator, refreshed as the run goes
-	pr := r.Fork()
+	// transactions from the same generator (a stream of their own), refreshed as the run goes
+	pr := NewRng(cfg.Seed ^ 0x5eedc18)
 	partners := []tcInput{}
 	for len(partners) < 8 {
 		if in := tcGen(pr.Fork()); tcSmallWrappable(in) {
@@ -936,8 +939,9 @@ func txcodecDriver(cfg Config, out *Out) error {
 		}
 	}
 	for i := 0; i < cfg.N; i++ {
-		in := tcGen(r.Fork())
-		lr := r.Fork()
+		cr := r.Fork()
+		in := tcGen(cr)
+		lr := cr.Fork()
 		c, err := tcRunCase(fmt.Sprintf("s%d-%d", cfg.Seed, i), in)
 		if err != nil {
 			return err
